@@ -605,9 +605,16 @@ func c20Pad(p *Prog, r *Report, R1 string, pad *ssa.Function) {
 // affine-in-q domain (len(name) = n). A phi is resolved by deciding the branch
 // facts of its incoming edges in the same domain; it has a value only if
 // exactly one edge is feasible, or all feasible edges agree.
+// affEnv: values of the parameters of in-module helpers being evaluated
+// (pushed around the evaluation of a helper call).
+var affEnv = map[ssa.Value]affine{}
+
 func evalAffineV(s *Sym, v ssa.Value, n affine, depth int) (affine, string) {
-	if depth > 24 {
+	if depth > 40 {
 		return affine{}, "expression too deep"
+	}
+	if a, ok := affEnv[v]; ok {
+		return a, ""
 	}
 	bin := func(op string, x, y affine) (affine, string) {
 		return evalAffine(T("bin", op, affTerm(x), affTerm(y)), n)
@@ -646,6 +653,74 @@ func evalAffineV(s *Sym, v ssa.Value, n affine, depth int) (affine, string) {
 					}
 				}
 				return best, ""
+			}
+		}
+		// an in-module helper computing the size from integer arguments: evaluate
+		// its (single) return value with the parameters bound
+		if f := x.Call.StaticCallee(); f != nil && InModule(f) && f.Blocks != nil && f.Signature.Results().Len() == 1 && depth < 30 {
+			var rets []*ssa.Return
+			for _, b := range f.Blocks {
+				if rt, ok := b.Instrs[len(b.Instrs)-1].(*ssa.Return); ok {
+					rets = append(rets, rt)
+				}
+			}
+			saved := map[ssa.Value]affine{}
+			okArgs := true
+			for i, prm := range f.Params {
+				if i >= len(x.Call.Args) {
+					okArgs = false
+					break
+				}
+				av, why := evalAffineV(s, x.Call.Args[i], n, depth+1)
+				if why != "" {
+					okArgs = false
+					break
+				}
+				if old, had := affEnv[prm]; had {
+					saved[prm] = old
+				}
+				affEnv[prm] = av
+			}
+			var res *affine
+			why := ""
+			if okArgs {
+				fs := s.prog.NewSym(f)
+				for _, rt := range rets {
+					// feasible returns only: decide the branch facts at the return
+					feasible := true
+					for _, fct := range fs.ff.At(rt.Block()) {
+						if tv, known := affTruth(fs, fct, n, depth+1); known && !tv {
+							feasible = false
+						}
+					}
+					if !feasible {
+						continue
+					}
+					rv, w := evalAffineV(fs, rt.Results[0], n, depth+1)
+					if w != "" {
+						why = w
+						break
+					}
+					if res == nil {
+						r := rv
+						res = &r
+					} else if res.A.Cmp(rv.A) != 0 || res.B.Cmp(rv.B) != 0 {
+						why = "the helper's result depends on a branch that the length does not decide"
+						break
+					}
+				}
+			}
+			for _, prm := range f.Params {
+				delete(affEnv, prm)
+				if old, had := saved[prm]; had {
+					affEnv[prm] = old
+				}
+			}
+			if okArgs && why == "" && res != nil {
+				return *res, ""
+			}
+			if why != "" {
+				return affine{}, why
 			}
 		}
 		return affine{}, "call outside the affine domain: " + clip(s.Of(x).String(), 80)
